@@ -45,6 +45,10 @@ class Baton(object):
         if code.co_filename not in self.files:
             return None
         if event == "call":
+            if code.co_name == "__init__":
+                # constructors of fresh, not yet shared objects run within the
+                # caller's statement (the model allocates atomically)
+                return None
             return self.tracer
         if event == "line":
             self.park(code.co_filename, frame.f_lineno, code.co_name)
@@ -53,7 +57,8 @@ class Baton(object):
     def park(self, filename, line, func):
         if self.free:
             return
-        ident = threading.get_ident()
+        # keyed by the Thread object (kept alive here): OS thread idents are reused
+        ident = threading.current_thread()
         with self.cond:
             tid = self.threads.get(ident)
             if tid is None:
@@ -155,6 +160,8 @@ class Recorder(object):
         with self.lock:
             self.running -= 1
             self.finished[i] = True
+        if kind.startswith("open"):
+            gates[int(kind[4:] or 0)].set()
         if kind == "raise":
             raise EXC[i]
         return RES[i]
@@ -196,7 +203,7 @@ def replay(source, filename, universe, client_programs, steps, pool_args=None, t
     cbs = [ns["make_cb"](j, U.cb_kinds[j], rec) for j in range(U.R)]
     for i, t in enumerate(tasks):
         t.__name__ = "task{0}".format(i)
-    env = {"TIMEOUT": "timeout", "TMO": timeout_literal, "NOWAIT": 0.0}
+    env = {"TIMEOUT": "timeout", "TMO": timeout_literal, "NOWAIT": 0.0, "stop_returned": False, "pool_serving": False}
     pool = None
     if pool_args is not None:
         pool = mod.ThreadPool(U.max_threads, U.min_threads, U.queue_size,
@@ -217,7 +224,7 @@ def replay(source, filename, universe, client_programs, steps, pool_args=None, t
     uncaught = {}
 
     def client_main(c, text):
-        ident = threading.get_ident()
+        ident = threading.current_thread()
         with baton.cond:
             baton.threads[ident] = c
             baton.grants.setdefault(c, 0)
@@ -292,6 +299,7 @@ def replay(source, filename, universe, client_programs, steps, pool_args=None, t
         "mismatch": mismatch,
         "clients": {},
         "uncaught": {c: describe(ex, RES, EXC, EXTRA) for c, ex in uncaught.items()},
+        "client_done": {c: (baton.state.get(c, ("?",))[0] == "done") for c in range(U.C)},
     }
     for c, local in client_ns:
         vals = {}
